@@ -6,6 +6,12 @@ use crate::mc::{Local, Report, Viol};
 use rayon::prelude::*;
 use serde_json::json;
 
+/// 128-bit digest of a canonical state key (keeps the frontier small; a collision would need two
+/// different canonical keys with equal SipHash under two different keys)
+fn digest(s: &str) -> (u64, u64) {
+    (crate::mc::hash64(s), crate::mc::hash64(&("salt", s)))
+}
+
 pub enum Step<M> {
     Next(M),
     /// the model says the call is refused: the real call must panic
@@ -59,12 +65,12 @@ pub fn run<M: Clone + Send + Sync>(rep: &Report, spec: &Spec<M>, depth: usize, m
     let mut total_trans = 0u64;
     // frontier entries: (model, init index, history)
     let mut frontier: Vec<(M, usize, Vec<usize>)> = spec.inits.iter().enumerate().map(|(i, (_, m))| (m.clone(), i, vec![])).collect();
-    let mut seen: std::collections::HashSet<String> = std::collections::HashSet::new();
+    let mut seen: std::collections::HashSet<(u64, u64)> = std::collections::HashSet::new();
     // initial states are checked too
     {
         let mut l = Local::default();
         for (m, init, hist) in &frontier {
-            seen.insert((spec.key)(m));
+            seen.insert(digest(&(spec.key)(m)));
             l.state(0);
             check_state(spec, m, *init, hist, &mut l, &only);
         }
@@ -72,7 +78,7 @@ pub fn run<M: Clone + Send + Sync>(rep: &Report, spec: &Spec<M>, depth: usize, m
         rep.merge(l);
     }
     for level in 1..=depth {
-        let results: Vec<(Vec<(String, M, usize, Vec<usize>)>, Local)> = frontier
+        let results: Vec<(Vec<((u64, u64), M, usize, Vec<usize>)>, Local)> = frontier
             .par_iter()
             .map(|(m, init, hist)| {
                 let mut l = Local::default();
@@ -111,7 +117,7 @@ pub fn run<M: Clone + Send + Sync>(rep: &Report, spec: &Spec<M>, depth: usize, m
                                     l.viol(viol("effect-mismatch", want, got));
                                 }
                             } else {
-                                let k = (spec.key)(&m2);
+                                let k = digest(&(spec.key)(&m2));
                                 succ.push((k, m2, *init, h2));
                             }
                         }
@@ -130,7 +136,7 @@ pub fn run<M: Clone + Send + Sync>(rep: &Report, spec: &Spec<M>, depth: usize, m
                 (succ, l)
             })
             .collect();
-        let mut next: Vec<(String, M, usize, Vec<usize>)> = Vec::new();
+        let mut next: Vec<((u64, u64), M, usize, Vec<usize>)> = Vec::new();
         for (succ, l) in results {
             total_trans += l.transitions;
             rep.merge(l);
